@@ -106,7 +106,6 @@ def run_script(S, script, rng):
         kwargs['endmarker'] = end
     eb = S.EagerBatcher(q, batch_size=b, **kwargs)
     batches = []  # (items, emit_time, log_index_range)
-    viol = []
     it = iter(eb)
     w = eff_wait if eff_wait > 0 else 0.01
     try:
@@ -120,27 +119,34 @@ def run_script(S, script, rng):
             if script['consumer'] == 'slow' or (script['consumer'] == 'mixed' and rng.random() < 0.4):
                 clock.now += w * rng.uniform(0.2, 3)
     except vtime.Deadlock:
-        viol.append({'mech': 'eagerbatcher/untimed-wait-after-end',
-                     'msg': 'an untimed get was issued with nothing left to arrive (end marker consumed or swallowed): would wait forever'})
-        return viol, {}
+        return [{'mech': 'eagerbatcher/untimed-wait-after-end',
+                 'msg': 'an untimed get was issued with nothing left to arrive (end marker consumed or swallowed): would wait forever'}], {}
+    return judge_timeline('eagerbatcher', arrivals, batches, q.log, b, eff_wait)
+
+
+def judge_timeline(what, arrivals, batches, qlog, b, eff_wait):
+    """The five rules of DESIGN C19 on a recorded virtual timeline.
+
+    arrivals: [(t, item)] with the end marker last; batches: [(items, emit_time, log_lo, log_hi)];
+    qlog: the ScriptedQueue log."""
+    viol = []
     items = [x for _, x in arrivals[:-1]]
     n = len(items)
     flat = [x for bt in batches for x in bt[0]]
     # (1) partition
     if len(flat) != n or any(a is not c and a != c for a, c in zip(flat, items)):
-        viol.append({'mech': 'eagerbatcher/partition', 'msg': f'concatenation of batches != input: {flat!r} vs {items!r}'})
+        viol.append({'mech': f'{what}/partition', 'msg': f'concatenation of batches != input: {flat!r} vs {items!r}'})
         return viol, {}
     for bt in batches:
         if not (1 <= len(bt[0]) <= b):
-            viol.append({'mech': 'eagerbatcher/batch-size', 'msg': f'batch of size {len(bt[0])} with batch_size {b}'})
+            viol.append({'mech': f'{what}/batch-size', 'msg': f'batch of size {len(bt[0])} with batch_size {b}'})
             return viol, {}
-    # reconstruct taken-times per item index from the queue log
     taken = {}
-    for ev in q.log:
+    for ev in qlog:
         if ev[0] == 'get' and isinstance(ev[4], int):
             taken[ev[4]] = ev[3]
     arr = [a for a, _ in arrivals]
-    stats = {'batches': len(batches), 'full': 0, 'partial_timer': 0, 'partial_end': 0, 'ties': 0, 'untimed_inner': 0}
+    stats = {'batches': len(batches), 'full': 0, 'partial_timer': 0, 'partial_end': 0, 'ties': 0}
     pos = 0
     end_idx = n  # index of the end marker in arrivals
     for bi, (bitems, emit, lo, hi) in enumerate(batches):
@@ -148,17 +154,11 @@ def run_script(S, script, rng):
         first, last = pos, pos + k - 1
         ft = taken[first]
         deadline = ft + eff_wait
-        is_last = bi == len(batches) - 1
-        # (5) untimed waits after the first element
-        for ev in q.log[lo:hi]:
-            if ev[0] in ('get', 'empty') and ev[1] is None and isinstance(ev[4], int) and ev[4] != first and ev[4] <= last:
-                stats['untimed_inner'] += 1
-                # an untimed get for a non-first member is an over-wait only if it actually waited past the deadline
         # (2) over-wait
         for j in range(first + 1, last + 1):
             lim = max(taken[j - 1], deadline)
             if arr[j] > lim + EPS:
-                viol.append({'mech': 'eagerbatcher/over-wait',
+                viol.append({'mech': f'{what}/over-wait',
                              'msg': f'item #{j} arrived at {arr[j]:.6f}, after the deadline {deadline:.6f} of its batch (first taken {ft:.6f}) and was not queued when polled',
                              'batch': bi})
                 break
@@ -169,34 +169,31 @@ def run_script(S, script, rng):
             stats['full'] += 1
             # (4) full batch: emitted as soon as its last member was taken
             if emit > taken[last] + EPS:
-                viol.append({'mech': 'eagerbatcher/late-release', 'msg': f'full batch emitted at {emit:.6f}, last member taken at {taken[last]:.6f}', 'batch': bi})
+                viol.append({'mech': f'{what}/late-release', 'msg': f'full batch emitted at {emit:.6f}, last member taken at {taken[last]:.6f}', 'batch': bi})
         else:
             closed_by_end = nxt == end_idx and end_idx in taken and taken[end_idx] <= emit + EPS
             if closed_by_end:
                 stats['partial_end'] += 1
-                # emitted at the moment the end marker was taken
                 if emit > taken[end_idx] + EPS:
-                    viol.append({'mech': 'eagerbatcher/late-release', 'msg': f'last batch emitted at {emit:.6f}, end marker taken at {taken[end_idx]:.6f}', 'batch': bi})
-                # the end marker itself must not have been over-waited for
+                    viol.append({'mech': f'{what}/late-release', 'msg': f'last batch emitted at {emit:.6f}, end marker taken at {taken[end_idx]:.6f}', 'batch': bi})
                 lim = max(taken[last], deadline)
                 if arr[end_idx] > lim + EPS:
-                    viol.append({'mech': 'eagerbatcher/over-wait', 'msg': f'waited for the end marker until {arr[end_idx]:.6f}, past deadline {deadline:.6f}', 'batch': bi})
+                    viol.append({'mech': f'{what}/over-wait', 'msg': f'waited for the end marker until {arr[end_idx]:.6f}, past deadline {deadline:.6f}', 'batch': bi})
             else:
                 stats['partial_timer'] += 1
                 # (3) early release: the next arrival must not have come within the wait
                 if abs(arr[nxt] - deadline) <= EPS or abs(arr[nxt] - max(deadline, taken[last])) <= EPS:
                     stats['ties'] += 1
                 elif arr[nxt] < max(deadline, taken[last]) - EPS and arr[nxt] < deadline - EPS:
-                    viol.append({'mech': 'eagerbatcher/early-release',
+                    viol.append({'mech': f'{what}/early-release',
                                  'msg': f'partial batch {bitems!r} emitted although item #{nxt} arrived at {arr[nxt]:.6f} < deadline {deadline:.6f} (first taken {ft:.6f})', 'batch': bi})
                 elif arr[nxt] <= taken[last] - EPS:
-                    # arrived before the last poll and yet was not taken
-                    viol.append({'mech': 'eagerbatcher/early-release',
+                    viol.append({'mech': f'{what}/early-release',
                                  'msg': f'partial batch emitted although item #{nxt} was already queued at the last poll', 'batch': bi})
                 # (4) late release
                 lim = max(deadline, taken[last])
                 if emit > lim + EPS:
-                    viol.append({'mech': 'eagerbatcher/late-release', 'msg': f'partial batch emitted at {emit:.6f} > max(deadline {deadline:.6f}, last taken {taken[last]:.6f})', 'batch': bi})
+                    viol.append({'mech': f'{what}/late-release', 'msg': f'partial batch emitted at {emit:.6f} > max(deadline {deadline:.6f}, last taken {taken[last]:.6f})', 'batch': bi})
         pos += k
     return viol, stats
 
